@@ -78,9 +78,15 @@ class Recorder:
     'short' (writes only: write the first half, then raise; other calls as 'pre').
     """
 
-    def __init__(self, root, fail_at=None, variant="pre", keep_data=False):
+    def __init__(self, root, fail_at=None, variant="pre", keep_data=False, fail_read_at=None):
         self.root = os.path.abspath(root)
         self.fail_at = fail_at
+        # READ side (wave 3): open-for-reading and read calls issued through the wrappers are counted separately
+        # (rn / rkinds); fail_read_at = k fails the k-th of them (variant 'pre': before the call has an effect,
+        # 'post': open succeeded / bytes were consumed, then the failure)
+        self.fail_read_at = fail_read_at
+        self.rn = 0
+        self.rkinds = []
         self.variant = variant
         self.keep_data = keep_data
         self.trace = []         # model calls: tuples
@@ -130,13 +136,31 @@ class Recorder:
             return self.variant
         return None
 
+    def _rtick(self, kind, path):
+        """Count one read-side call; return the variant to apply if this is the failing one."""
+        self.rn += 1
+        self.rkinds.append(kind)
+        if self.fail_read_at is not None and self.rn == self.fail_read_at and self.fired is None:
+            self.fired = (self.rn, kind, path)
+            self.fired_at = len(self.trace)
+            return self.variant
+        return None
+
     # -- the wrappers ------------------------------------------------------
     def open_with(self, path, mode="rb"):
         writing = any(ch in mode for ch in "wa+x")
         rel = self.rel(path)
         if not writing:
-            self.reads.append(rel if rel is not None else str(path))
-            return open(path, mode)
+            relp = rel if rel is not None else str(path)
+            v = self._rtick("ropen", relp)
+            if v is not None and v != "post":
+                raise Fault("open for reading %s" % relp)
+            f = open(path, mode)
+            self.reads.append(relp)
+            if v == "post":
+                f.close()
+                raise Fault("open for reading %s (after opening it)" % relp)
+            return _RHandle(self, f, relp)
         relp = rel if rel is not None else "../" + str(path)
         v = self._tick("open", relp)
         if v in ("pre", "short"):
@@ -194,6 +218,16 @@ class _Handle:
             raise Fault("write %s (after writing)" % self._p)
         return n
 
+    def read(self, *a):
+        # a handle opened 'rb+' (single-file append) reads the old footer through the same handle
+        v = self._rec._rtick("read", self._p)
+        if v is not None and v != "post":
+            raise Fault("read %s" % self._p)
+        b = self._f.read(*a)
+        if v == "post":
+            raise Fault("read %s (after consuming %d bytes)" % (self._p, len(b)))
+        return b
+
     def close(self):
         rec = self._rec
         v = rec._tick("close", self._p)
@@ -208,6 +242,34 @@ class _Handle:
 
     def __exit__(self, *a):
         self.close()
+
+    def __getattr__(self, name):
+        return getattr(self._f, name)
+
+
+class _RHandle:
+    """a file opened for reading through the wrapper: its read calls are counted (and can be made to fail)"""
+
+    def __init__(self, rec, f, relp):
+        self._rec, self._f, self._p = rec, f, relp
+
+    def read(self, *a):
+        v = self._rec._rtick("read", self._p)
+        if v is not None and v != "post":
+            raise Fault("read %s" % self._p)
+        b = self._f.read(*a)
+        if v == "post":
+            raise Fault("read %s (after consuming %d bytes)" % (self._p, len(b)))
+        return b
+
+    def __enter__(self):
+        return self
+
+    def __exit__(self, *a):
+        self._f.close()
+
+    def __iter__(self):
+        return iter(self._f)
 
     def __getattr__(self, name):
         return getattr(self._f, name)
